@@ -66,6 +66,8 @@ def enumerate_cases(tier: str):
             yield {"version": version, "parked": 2, "other_parked": 0, "senders": [[1, True], [1, True, "req"]]}
             yield {"version": version, "parked": 1, "other_parked": 0, "senders": [[0, True, "req"]]}
             yield {"version": version, "parked": 1, "other_parked": 0, "senders": [[0, True], [0, True, "dup"], [0, True]]}
+            for senders in ([[0, True, "ack"]], [[1, True, "ack"]], [[1, True, "ack"], [0, True]], [[1, True], [1, True, "ack"]], [[2, True, "ack"], [1, False, "ack"]]):
+                yield {"version": version, "parked": 3, "other_parked": 0, "senders": senders}
             for senders in ([[0, True]], [[1, True]], [[1, True], [0, True]], [[3, True], [1, False]]):
                 yield {"version": version, "parked": 2, "other_parked": 0, "senders": senders, "represented": True}
                 yield {"version": version, "parked": 2, "other_parked": 0, "senders": senders, "reported": True}
@@ -79,10 +81,11 @@ def enumerate_cases(tier: str):
             if tier == "thorough" and ns <= 2 and k <= 3 and other == 0:
                 yield {"version": version, "parked": k, "other_parked": other, "senders": [[key, buf] for key, buf in combo], "represented": True}
                 yield {"version": version, "parked": k, "other_parked": other, "senders": [[key, buf, "dup"] for key, buf in combo]}
+                yield {"version": version, "parked": k, "other_parked": other, "senders": [[key, buf, "ack"] for key, buf in combo]}
 
 
 def strategy(tier: str):
-    sender = st.tuples(st.sampled_from((0, 1, 2, 3, "other")), st.booleans(), st.sampled_from(("new", "new", "dup", "req"))).map(list)
+    sender = st.tuples(st.sampled_from((0, 1, 2, 3, "other")), st.booleans(), st.sampled_from(("new", "new", "dup", "req", "ack"))).map(list)
     return st.fixed_dictionaries(
         {
             "version": st.sampled_from(("2.0", "2.1", "2.2")),
@@ -159,14 +162,14 @@ async def _run_schedule(case: dict, schedule: list[int]) -> tuple[Outcome | None
 
     req_lines: list[str] = []
 
-    async def do_send(key, value, buffer) -> tuple[str, object]:
+    async def do_send(key, value, buffer, ack: int = 0) -> tuple[str, object]:
         if value is None:
             req_lines.append(f"{key[0]};{key[1]};2;0;{key[2]};\n")
             return await env.send(gateway, env.mk_message([key[0], key[1], 2, 0, key[2], ""]), buffer)
         rec = {"key": key, "value": value, "inv": transport.tick(), "comp": None, "buffered": bool(buffer), "racing": listen_tick[0] is not None}
         sends.append(rec)
         calls_before = len(transport.calls)
-        result = await env.send(gateway, env.mk_message([key[0], key[1], 1, 0, key[2], value]), buffer)
+        result = await env.send(gateway, env.mk_message([key[0], key[1], 1, ack, key[2], value]), buffer)
         rec["comp"] = transport.tick()
         # parked = the call returned without handing this line to the transport
         rec["parked"] = not any(line.rstrip("\n").split(";", 5)[5] == value and _key_of(line) == key for _t, line in transport.calls[calls_before:])
@@ -196,7 +199,8 @@ async def _run_schedule(case: dict, schedule: list[int]) -> tuple[Outcome | None
             value = f"p{kref}"  # the same value as the parked (possibly in-flight) command, in a new Message object
         if len(sender) > 2 and sender[2] == "req":
             value = None  # this task asks the node for the value instead of setting it (command 2, same key)
-        specs.append((key, value, buf))
+        # "ack": the command asks the node to echo it (ack flag set); that changes nothing about buffering
+        specs.append((key, value, buf, 1 if len(sender) > 2 and sender[2] == "ack" else 0))
     listener = None
     faults_left = [int(case.get("faults", 0))]
     info_faults: list[int] = []
@@ -231,11 +235,11 @@ async def _run_schedule(case: dict, schedule: list[int]) -> tuple[Outcome | None
             listen_tick[0] = transport.tick()
             listener = asyncio.ensure_future(env.rx(gateway, f"1;255;3;0;{wake_type};5\n"))
         elif kind == "start":
-            key, value, buf = specs[arg]
+            key, value, buf, ack = specs[arg]
             flush_blocked = any(not fut.done() and _key_of(line)[0] == 1 for line, fut in transport.blocked)
             if flush_blocked and key[0] == 1 and listener is not None and not listener.done():
                 flags["raced"] = True
-            sender_tasks[arg] = asyncio.ensure_future(do_send(key, value, buf))
+            sender_tasks[arg] = asyncio.ensure_future(do_send(key, value, buf, ack))
         elif kind == "fail":
             faults_left[0] -= 1
             info_faults.append(arg)
